@@ -10,3 +10,8 @@ class _Rec:
 
 
 REC = _Rec()
+
+
+def foreign(x):
+    """a plain function of another package: memento makes no hash rule for it"""
+    return [0]
